@@ -176,6 +176,7 @@ func (e *encoderState) Flush() error {
 		// otherwise Write operates as expected.
 		// See https://go.dev/issue/42986.
 		n, _ := bb.Write(e.Buf) // never fails unless bb is nil
+		verifFlush(e, n)
 		e.baseOffset += int64(n)
 
 		// If the internal buffer of bytes.Buffer is too small,
@@ -193,6 +194,7 @@ func (e *encoderState) Flush() error {
 
 	// Flush the internal buffer to the underlying io.Writer.
 	n, err := e.wr.Write(e.Buf)
+	verifFlush(e, n)
 	e.baseOffset += int64(n)
 	if err != nil {
 		// In the event of an error, preserve the unflushed portion.
@@ -304,6 +306,7 @@ func (e *encoderState) UnwriteEmptyObjectMember(prevName *string) bool {
 		e.Names.copyQuotedBuffer(e.Buf) // required by objectNameStack.replaceLastUnquotedName
 		e.Names.replaceLastUnquotedName(*prevName)
 	}
+	verifUnwrite(e, 0)
 	return true
 }
 
@@ -328,6 +331,7 @@ func (e *encoderState) UnwriteOnlyObjectMemberName() string {
 		}
 	}
 	e.Names.clearLast()
+	verifUnwrite(e, 1)
 	return name
 }
 
